@@ -91,6 +91,23 @@ impl X509Certificate {
 		})
 	}
 
+	/// Parses a PEM certificate chain. Every block has to be a valid certificate
+	/// and there has to be at least one.
+	pub fn chain_from_pem(pem_data: &[u8]) -> Result<Vec<Self>, Error> {
+		let chain = X509::stack_from_pem(pem_data)?;
+		if chain.is_empty() {
+			return Err("no certificate found".into());
+		}
+		Ok(chain
+			.into_iter()
+			.map(|inner_cert| X509Certificate { inner_cert })
+			.collect())
+	}
+
+	pub fn has_public_key_of(&self, key_pair: &KeyPair) -> Result<bool, Error> {
+		Ok(self.inner_cert.public_key()?.public_eq(&key_pair.inner_key))
+	}
+
 	pub fn from_pem_native(pem_data: &[u8]) -> Result<native_tls::Certificate, Error> {
 		Ok(native_tls::Certificate::from_pem(pem_data)?)
 	}
